@@ -366,6 +366,41 @@ func genFields(r *vh.Rand, tag string, fs []genField, round int64) fblock {
 	return b
 }
 
+// busy block: d distinct identities (65-300) of one tag, each event small; identities first seen around the growth
+// boundaries of a result slice (1st, 63rd-66th, 127th-130th distinct identity) appear again right after the 64th,
+// 65th, 128th, 129th distinct identity and at the end of the block
+func busyFields(r *vh.Rand, tag string, fs []genField, d int, round int64) fblock {
+	b := fblock{Tag: tag, Fields: fs, Round: round}
+	mk := func(idx int) fev {
+		e := fev{Index: idx}
+		for _, f := range fs {
+			e.Fields = append(e.Fields, genEntries(r, f, f.Kind == "map" && r.Chance(2, 3)))
+		}
+		return e
+	}
+	early := []int{1, 2, 63, 64, 65, 66, 127, 128, 129, 130}
+	for i := 1; i <= d; i++ {
+		b.Events = append(b.Events, mk(i))
+		switch i {
+		case 64, 65, 66, 128, 129, 130, 256, 257:
+			for _, e := range early {
+				if e <= i && r.Chance(2, 3) {
+					b.Events = append(b.Events, mk(e))
+				}
+			}
+		}
+		if r.Chance(1, 25) {
+			b.Events = append(b.Events, mk(1+r.Intn(i)))
+		}
+	}
+	for _, e := range early {
+		if e <= d {
+			b.Events = append(b.Events, mk(e))
+		}
+	}
+	return b
+}
+
 // ---------- Coq case ----------
 
 func coqFev(e fev) string {
